@@ -687,3 +687,4 @@ PROPS["C12"]["rule"] += " In a quarter of the workloads every rule has two actio
 PROPS["C12"]["rule"] += " The fact-writing actions store a value bound from the event and keep writing to it afterwards; the final comparison of memory and storage compares whole contents."
 PROPS["C18"]["rule"] += " The js requests include scripts that need a library of the location's control, named in a `libraries` list."
 PROPS["C18"]["rule"] += " Ill-typed parent lists include JSON text whose elements are not all names ([null], [\"x\", null], [1])."
+PROPS["C18"]["rule"] += " Some js requests give their code as an array of lines (one of which ends in a // comment)."
